@@ -448,6 +448,9 @@ func TestVerif_C14(t *testing.T) {
 	scs = append(scs, c14Scenario{N: 3, Edges: [][2]int{{0, 1}}, LateEdges: [][2]int{{1, 2}}, Origin: 0, Budget: []int{2, 1, 0}, Pre: pre(3, 1, o0+1)})
 	// O - R ... N - M: the replay goes to N, M sits behind N
 	scs = append(scs, c14Scenario{N: 4, Edges: [][2]int{{0, 1}, {2, 3}}, LateEdges: [][2]int{{1, 2}}, Origin: 0, Budget: []int{2, 0, 0, 0}, Pre: pre(4, 1, o0+1)})
+	// same, relay further ahead: both announcements are older than the replay stamp (a replay made after
+	// the first one carries all six routes, so N has nothing to learn from the second one)
+	scs = append(scs, c14Scenario{N: 4, Edges: [][2]int{{0, 1}, {2, 3}}, LateEdges: [][2]int{{1, 2}}, Origin: 0, Budget: []int{2, 0, 0, 0}, Pre: pre(4, 1, o0+3)})
 	// triangle closed late: N already hears O directly when R's replay arrives
 	scs = append(scs, c14Scenario{N: 3, Edges: [][2]int{{0, 1}, {0, 2}}, LateEdges: [][2]int{{1, 2}}, Origin: 0, Budget: []int{1, 0, 0}, Pre: pre(3, 1, o0+2)})
 	// controls (must never alarm): relay behind the origin; no late link at all
@@ -458,6 +461,7 @@ func TestVerif_C14(t *testing.T) {
 			c14Scenario{N: 3, Edges: [][2]int{{0, 1}}, LateEdges: [][2]int{{1, 2}}, Origin: 0, Budget: []int{3, 2, 0}, Pre: pre(3, 1, o0+1)},
 			c14Scenario{N: 3, Edges: [][2]int{{0, 1}}, LateEdges: [][2]int{{1, 2}}, Origin: 0, Budget: []int{3, 3, 0}},
 			c14Scenario{N: 4, Edges: [][2]int{{0, 1}, {2, 3}}, LateEdges: [][2]int{{1, 2}}, Origin: 0, Budget: []int{2, 2, 0, 0}, Pre: pre(4, 1, o0+1)},
+			c14Scenario{N: 4, Edges: [][2]int{{0, 1}, {2, 3}}, LateEdges: [][2]int{{1, 2}}, Origin: 0, Budget: []int{3, 0, 0, 0}, Pre: pre(4, 1, o0+2)},
 			c14Scenario{N: 3, Edges: [][2]int{{0, 1}, {0, 2}}, LateEdges: [][2]int{{1, 2}}, Origin: 0, Budget: []int{2, 1, 0}, Pre: pre(3, 1, o0+1)},
 			c14Scenario{N: 4, Edges: [][2]int{{0, 1}, {1, 2}}, LateEdges: [][2]int{{2, 3}, {1, 3}}, Origin: 0, Budget: []int{2, 0, 1, 0}, Pre: pre(4, 2, o0+1)},
 			c14Scenario{N: 3, Edges: [][2]int{{0, 1}, {1, 2}, {0, 2}}, Origin: 0, Budget: []int{3, 1, 1}, Pre: pre(3, 1, o0+1)},
